@@ -65,6 +65,8 @@ DICT_CELLS = {
     # a sheet whose name holds a dollar sign, with a range on it
     'Cost$!A1': 3, 'Cost$!A2': 4, 'Cost$!B1': '=SUM(A1:A2)',
     S1 + 'B7': "=SUM('Cost$'!A1:A2)+1",
+    # an input that no range covers (it can be emptied: a cell holding None)
+    S1 + 'D9': 5, S1 + 'B9': '=D9*2',
 }
 VALUES = [
     ('int', 7), ('huge', 1.5e300), ('tiny', 2.5e-300), ('negzero', -0.0),
@@ -87,6 +89,7 @@ def build_model(kind, compiled):
             'B3': {'form': 'f', 'f': 'A1/0', 'ct': 'e', 'cv': '#DIV/0!'},
             'B4': {'form': 'f', 'f': 'SUM(rng)'},
             'B5': {'form': 'f', 'f': 'A3+1'},
+            'D9': {'form': 'n', 'v': 5}, 'B9': {'form': 'f', 'f': 'D9*2'},
         }),
         ('My Sheet', {'A1': {'form': 'n', 'v': 3}, 'A2': {'form': 'n', 'v': 4},
                       'B1': {'form': 'f', 'f': 'SUM(A1:A2)*Sheet1!A1'}}),
@@ -166,6 +169,7 @@ def alphabet(kind):
         ops.append(('set', INPUTS[0], vi))
     for vi in (0, 4):
         ops.append(('set', INPUTS[1], vi))
+    ops.append(('set', S1 + 'D9', 7))          # emptied
     if kind == 'xlsx':
         ops.append(('set', 'nm', 0))
     return ops
@@ -280,6 +284,26 @@ def check_state(kind, compiled, hist, ctx):
             ctx.fail('%s#%s/snapshot' % (key0, ext),
                      tags + ['fmt:' + ext, 'oracle:snapshot'], inputs,
                      'equal', 'differs:' + d[0], nontriv, d[1])
+        # the model made from a file is its own: a second model made from
+        # the same (unchanged) file right afterwards does not see what was
+        # done to the first
+        ev1 = lib.Evaluator(r)
+        lib.observe(ev1.set_cell_value, INPUTS[0], 990099)
+        lib.observe(ev1.set_cell_value, S1 + 'D9', None)
+        for a in EVAL_CELLS[:2]:
+            lib.observe(ev1.evaluate, a)
+        r2 = lib.Model()
+        o = lib.observe(r2.construct_from_json_file, path, True)
+        st = tags + ['fmt:' + ext, 'history:second-model-from-the-file']
+        if o != 'blank':
+            ctx.fail('%s#%s/second/restore' % (key0, ext), st, inputs,
+                     'restores', o, nontriv)
+            continue
+        d = diff_snap(snap0, snapshot(r2))
+        ctx.check('%s#%s/second/snapshot' % (key0, ext),
+                  'equal' if d is None else 'differs:' + d[0], 'equal',
+                  st + ['oracle:snapshot'], inputs, nontriv)
+        restored[-1] = (ext, r2)
     old_evaluators = {}
     if any(e == 'json' for e, _ in restored):
         # the same file loaded into a Model object that held another model
